@@ -95,6 +95,56 @@ def codeNum (base : Nat) (ds : List Nat) : Nat := ds.foldl (fun acc d => acc * b
 
 def floatOfBits (b : Nat) : Float := Float.ofBits (UInt64.ofNat b)
 
+/-- `10 * f64::EPSILON`, the absolute tolerance of `BoundingBox::contains`. -/
+def eps10 : Float := 10.0 * floatOfBits 0x3CB0000000000000
+
+/-- The library's cell arithmetic (`BoundingBox::{contains, center, region, sub_aabb}`), executable:
+`k` halvings of the box `[lo, hi]` around the point `p` (frame coordinates). The centre of a cell is
+`(lo + hi) / 2` in IEEE double arithmetic; bit `i` of a region is set when `p[i]` is strictly above
+the centre (IEEE comparison: the sign of a zero is immaterial); a point that the tolerance test
+puts outside the cell gets region 0 (`region(..).unwrap_or(0)`). Structural recursion on `k`. -/
+def cellDigits (dim : Nat) (p : Array Float) : Nat → Array Float → Array Float → List Nat → List Nat
+  | 0, _, _, acc => acc.reverse
+  | k + 1, lo, hi, acc =>
+    let axes := List.range dim
+    let inside := axes.all (fun i =>
+      decide (p.getD i 0.0 < hi.getD i 0.0 + eps10) && decide (p.getD i 0.0 > lo.getD i 0.0 - eps10))
+    let c : Array Float := (Array.range dim).map (fun i => (lo.getD i 0.0 + hi.getD i 0.0) / 2.0)
+    let r : Nat :=
+      if inside then axes.foldl (fun r i => if p.getD i 0.0 > c.getD i 0.0 then r + 2 ^ i else r) 0 else 0
+    let lo' := (Array.range dim).map (fun i => if (r / 2 ^ i) % 2 = 0 then lo.getD i 0.0 else c.getD i 0.0)
+    let hi' := (Array.range dim).map (fun i => if (r / 2 ^ i) % 2 = 0 then c.getD i 0.0 else hi.getD i 0.0)
+    cellDigits dim p k lo' hi' (r :: acc)
+
+/-- `BoundingBox::from_points` on the frame coordinates (`fold_with` from `(f64::MAX, f64::MIN)` with
+`val < min` / `max < val`; `min`/`max` of the partial results: the values do not depend on rayon's
+segmentation, only the sign of a zero corner does, and no comparison sees it), then the cell of
+every point at depth `order`, as code tokens (`e` for the empty code). -/
+def ownCodes (dim order : Nat) (mapped : Array Float) : Array String :=
+  let n := mapped.size / dim
+  let pts : Array (Array Float) := (Array.range n).map (fun j => mapped.extract (j * dim) (j * dim + dim))
+  let lo0 : Array Float := (Array.range dim).map (fun i =>
+    pts.foldl (fun m p => if p.getD i 0.0 < m then p.getD i 0.0 else m) (floatOfBits 0x7FEFFFFFFFFFFFFF))
+  let hi0 : Array Float := (Array.range dim).map (fun i =>
+    pts.foldl (fun m p => if m < p.getD i 0.0 then p.getD i 0.0 else m) (floatOfBits 0xFFEFFFFFFFFFFFFF))
+  pts.map (fun p =>
+    let ds := cellDigits dim p order lo0 hi0 []
+    if ds.isEmpty then "e" else String.join (ds.map toString))
+
+/-- The code tokens the model works with: after `=>` come the hook's codes and, behind a `|`,
+the points' frame coordinates (hex bits). When the coordinates are there the model computes the
+cells ITSELF (`ownCodes`) and the hook's codes are ignored: a change of the implementation's
+cell arithmetic then shows as a disagreement. Without them (large inputs, non-finite frames)
+the hook's codes are the parameter, as before. -/
+def modelCodeToks (dim order n : Nat) (post : Array String) : Option (Array String) :=
+  match post.findIdx? (· == "|") with
+  | none => some post
+  | some k =>
+    match takeArr parseHex? post (n * dim) (k + 1) #[] with
+    | none => none
+    | some (bits, j) =>
+      if j = post.size ∧ k = n then some (ownCodes dim order (bits.map floatOfBits)) else none
+
 /-- `HilbertCurve::partition`: MAX_ORDER check, empty early return, then `partition_indexed`. -/
 def hilbertHead (dim order parts n : Nat) : Option String :=
   if order > (if dim = 2 then 32 else 21) then some "err invalid-order"
@@ -259,7 +309,10 @@ def handle (toks : List String) : String :=
       let (_, j) ← takeArr parseHex? pre (n * dim) 6 #[]
       if j = pre.size ∧ (dim = 2 ∨ dim = 3) then some (dim, order, parts, n) else none) with
     | none => "bad-op"
-    | some (dim, order, parts, n) => zcurveOut dim order parts n (post.getD #[])
+    | some (dim, order, parts, n) =>
+      match modelCodeToks dim order n (post.getD #[]) with
+      | none => "bad-op"
+      | some toks => zcurveOut dim order parts n toks
   | some "zcg" =>
     -- `zcg <dim> <pool> <order> <parts> <n> <family> <layout> <seed> <reuse> [=> <code…>]`
     match (do
@@ -269,7 +322,10 @@ def handle (toks : List String) : String :=
       let n ← natAt pre 5
       if pre.size = 10 ∧ (dim = 2 ∨ dim = 3) then some (dim, order, parts, n) else none) with
     | none => "bad-op"
-    | some (dim, order, parts, n) => zcurveOut dim order parts n (post.getD #[])
+    | some (dim, order, parts, n) =>
+      match modelCodeToks dim order n (post.getD #[]) with
+      | none => "bad-op"
+      | some toks => zcurveOut dim order parts n toks
   | some "cx" =>
     "skip context op: implementation-vs-implementation comparison (same calls on the global pool / inside a rayon task / concurrently / with other input types); the calls themselves are compared with the model on the hilg/zcg lines that follow"
   | some "seq" =>
